@@ -9,7 +9,7 @@ def all_sequences(max_opts, keysets, vals=(1, 2)):
         for kinds in itertools.product(OPT_KINDS, repeat=n):
             for ks in itertools.product(keysets, repeat=n):
                 for vs in itertools.product(vals, repeat=n):
-                    yield [dict(kind=k[0], lk=k[1], keys=list(s), val=v) for k, s, v in zip(kinds, ks, vs)]
+                    yield [dict(kind=k[0], lk=k[1], keys=list(s), val=v, join=False) for k, s, v in zip(kinds, ks, vs)]
 
 
 def rand_sequence(rng, max_opts):
@@ -22,4 +22,21 @@ def rand_sequence(rng, max_opts):
         i = rng.randrange(0, len(out) - 2)
         j = rng.randrange(i + 2, len(out))
         out[j] = dict(out[j], keys=list(out[i]["keys"]), val=out[i]["val"], lk=out[j]["lk"])
-    return out
+    if rng.random() < 0.4:          # variadic calls: Set/AddConfigLoader(l1, l2, ...) with loaders of any kind, file loaders included
+        i = 0
+        while i < len(out):
+            if out[i]["kind"] in ("add", "set") and rng.random() < 0.6:
+                if rng.random() < 0.4:
+                    out[i]["lk"] = "file"
+                j = i + 1
+                while j < len(out) and out[j]["kind"] != "init" and rng.random() < 0.6:
+                    out[j] = dict(out[j], kind="add", lk=rng.choice(["raw", "args", "file"]), join=True)
+                    j += 1
+                i = j
+            else:
+                i += 1
+    if len(out) >= 2 and rng.random() < 0.3:          # an Initialize in the middle (shared Configure, two application starts)
+        at = rng.randrange(1, len(out))
+        if not out[at].get("join"):
+            out.insert(at, dict(kind="init", lk="none", keys=[], val=0))
+    return [dict(o, join=bool(o.get("join"))) for o in out]
